@@ -148,7 +148,7 @@ def verify(n):
 ALL_PROPS = ["C%02d" % i for i in range(1, 21)]
 
 
-def run_many(sel, props=None, all_props=False, nworkers=4):
+def run_many(sel, props=None, all_props=False, nworkers=4, seed=None):
     sys.path.insert(0, os.path.dirname(os.path.abspath(__file__)))
     import scratch as scr
 
@@ -165,7 +165,7 @@ def run_many(sel, props=None, all_props=False, nworkers=4):
         todo = props or ([target] if not all_props else ALL_PROPS)
         for pid in todo:
             t0 = time.time()
-            rc, out = w.check(pid)
+            rc, out = w.check(pid, seed=seed)
             first = ""
             for line in out.splitlines():
                 if line.startswith("  ") and not first:
@@ -177,6 +177,15 @@ def run_many(sel, props=None, all_props=False, nworkers=4):
         w.revert()
         with lock:
             m = load_meta(n)
+            if seed is not None:
+                # robustness runs with another VERIF_SEED are kept apart
+                other = m.get("other_seeds", {})
+                other[str(seed)] = {p: v["exit"] for p, v in row.items()}
+                m["other_seeds"] = other
+                save_meta(n, m)
+                print("%-12s seed=%s %s" % (n, seed, "  ".join("%s:%s(%ss)" % (p, {0: "MISSED", 1: "caught", 2: "INFRA"}.get(v["exit"], v["exit"]), v["wall_s"]) for p, v in row.items())))
+                sys.stdout.flush()
+                return
             runs = m.get("checks", {})
             runs.update(row)
             m["checks"] = runs
@@ -224,6 +233,10 @@ if __name__ == "__main__":
                 props = f.split("=", 1)[1].split(",")
             if f.startswith("--workers="):
                 nw = int(f.split("=", 1)[1])
-        run_many(sel or names(), props=props, all_props="--all-props" in flags, nworkers=nw)
+        sd = None
+        for f in flags:
+            if f.startswith("--seed="):
+                sd = int(f.split("=", 1)[1])
+        run_many(sel or names(), props=props, all_props="--all-props" in flags, nworkers=nw, seed=sd)
     elif a[0] == "table":
         table()
